@@ -370,6 +370,8 @@ Inductive op :=
 | OClose (h : nat)                 (* uv_close / uv__io_close *)
 | OFeed (h : nat)                  (* uv__io_feed (bare watchers) *)
 | OActive (h : nat)                (* uv_is_active / uv__io_active(all) *)
+| OForeign (k : nat) (sl : nat)     (* uv_pipe_open (0) / uv_tcp_open (1) / uv_udp_open (2) of a fresh
+                                      handle of another kind on the descriptor in slot sl *)
 | ORun.                            (* uv_run(UV_RUN_NOWAIT); ignored inside callbacks *)
 
 Inductive event :=
@@ -382,6 +384,7 @@ Inductive event :=
 | EClose (h : nat)
 | EFeed (h : nat)
 | EAct (h : nat) (b : bool)
+| EForeign (k : nat) (fd : Z) (refused : bool)   (* refused = returned UV_EEXIST *)
 | ECb (h : nat) (status : Z) (ev : mask)   (* poll callback; ghosts: *)
       (req : mask) (efd : Z) (rep : mask) (hfd : Z) (gstart : option nat) (n : nat)
 | ERawCb (h : nat) (ev : mask)
@@ -427,7 +430,8 @@ Definition api (fdo : nat -> Z) (s : state) (o : op) : state * list event :=
   | OEnv => (s, [])
   | OInit sl =>
       let fd := slots s sl in
-      if (fd =? -1) || any_on s fd (fun h => live h && is_raw h) || (strict s && any_on s fd live)
+      if (fd =? -1) || (negb (fd_exists s fd) && any_on s fd (fun h => live h && is_raw h)) ||
+         (strict s && any_on s fd live)
       then (s, [ESkip])
       else let '(s1, rc) := poll_init s fd in (s1, [EInit (length (hs s)) KPoll rc fd])
   | ORawInit sl =>
@@ -465,6 +469,12 @@ Definition api (fdo : nat -> Z) (s : state) (o : op) : state * list event :=
         | KRaw => (s, [EAct i (io_active s i ALLEV)])
         end
       else (s, [ESkip])
+  | OForeign k sl =>
+      (* uv_pipe_open / uv_tcp_open / uv_udp_open: if (uv__fd_exists(loop, fd)) return UV_EEXIST;
+         otherwise the descriptor is only made non-blocking / flagged: nothing the watchers
+         or the kernel's interest set see (the script disposes of the handle at once) *)
+      let fd := slots s sl in
+      if fd =? -1 then (s, [ESkip]) else (s, [EForeign k fd (fd_exists s fd)])
   | ORun => (s, [])
   end.
 
